@@ -61,9 +61,13 @@ def _run_cvc5(text, timeout_s):
 
 
 def _work(job):
-    idx, text, z3_ms, cvc5_s = job
-    verdict, dt = _run_z3(text, z3_ms)
+    """portfolio: the light axiom set first (dropping axioms is sound), then the full set, then cvc5"""
+    idx, text_lite, text, z3_ms, cvc5_s = job
+    verdict, dt = _run_z3(text_lite, max(2000, z3_ms // 3))
     backend = "z3"
+    if verdict != "unsat":
+        verdict, dt1 = _run_z3(text, z3_ms)
+        dt += dt1
     if verdict != "unsat" and cvc5_s > 0:
         v2, dt2 = _run_cvc5(text, cvc5_s)
         if v2 == "unsat":
@@ -72,7 +76,7 @@ def _work(job):
     return idx, verdict, dt, backend
 
 
-def discharge(obls, axioms, z3_ms=10000, cvc5_s=20, procs=None):
+def discharge(obls, axioms, z3_ms=10000, cvc5_s=20, procs=None, axioms_lite=None):
     """obls: list of interp.Obligation. returns list of dict(verdict, seconds, backend) aligned with obls"""
     jobs = []
     res = [None] * len(obls)
@@ -80,7 +84,8 @@ def discharge(obls, axioms, z3_ms=10000, cvc5_s=20, procs=None):
         if z3.is_true(o.goal):
             res[i] = dict(verdict="unsat", seconds=0.0, backend="trivial")
             continue
-        jobs.append((i, to_smt2(axioms, o.pc, o.goal), z3_ms, cvc5_s))
+        jobs.append((i, to_smt2(axioms_lite if axioms_lite is not None else axioms, o.pc, o.goal),
+                     to_smt2(axioms, o.pc, o.goal), z3_ms, cvc5_s))
     if jobs:
         procs = procs or min(16, os.cpu_count() or 4)
         with multiprocessing.Pool(procs) as pool:
